@@ -612,6 +612,31 @@ def pair_case(s1, s2, tier, ctx, route='num'):
         judge(ctx, pre + 'SUB', num(want), g2,
               lambda: pair_tags('SUB', s1, s2, 'dt' if not formula else
                                 route), inp, nontriv)
+    if formula:
+        # a date keeps its calendar fields when a function has used it: the
+        # same two cells are arguments of YEARFRAC and, in the same formula,
+        # of DAYS / YEAR afterwards
+        try:
+            diff = ref.serial_difference(s1, s2)
+        except ref.Unjudged:
+            diff = None
+        if diff is not None:
+            cells = {'Sheet1!A1': '=' + dexpr(s1), 'Sheet1!B1': '=' + dexpr(s2)}
+            for basis in (1, 3):
+                g = lib.eval_formula(
+                    '=YEARFRAC(A1,B1,%d)*0+DAYS(B1,A1)' % basis, cells)
+                judge(ctx, pre + 'DAYS-after-YEARFRAC/b=%d' % basis,
+                      num(diff), g,
+                      lambda: pair_tags('DAYS', s1, s2, route,
+                                        {'history:argument-used-before'}),
+                      inp, nontriv)
+            g = lib.eval_formula('=YEARFRAC(A1,B1,1)*0+YEAR(A1)*100+MONTH(B1)',
+                                 cells)
+            judge(ctx, pre + 'fields-after-YEARFRAC',
+                  num(ref.fields(s1)[0] * 100 + ref.fields(s2)[1]), g,
+                  lambda: pair_tags('YEAR', s1, s2, route,
+                                    {'history:argument-used-before'}),
+                  inp, nontriv)
     if s1 > s2:
         ctx.skip('datedif-start-after-end', 3)
         if not formula:
